@@ -99,6 +99,7 @@ def c04(run, tier):
     cfg = run.cfg("Gen_C01.cfg", {"MaxNodes": Q(tier, 4, 5), "EmitFam": '"C04"'}, "gen04.cfg")
     rep = run.tlc_gen_replay("MC_C01", cfg, "nodes", timeout=Q(tier, 300, 1800))
     run.absorb(rep, VALUE_ASPECTS)
+    fixed_two_steps(run, VALUE_ASPECTS)   # incl. the string-values of a document nested 18 levels deep (family C04.deep)
     values_traces(run, tier)
 
 
